@@ -3,7 +3,7 @@ open Driver
 let rec take n l = if n = 0 then [] else match l with [] -> [] | x :: r -> x :: take (n - 1) r
 let notstr = hex_of_bytes (Stdlib.List.map n_of_int [1; 110; 111; 116; 115; 116; 114])   (* "\x01notstr" *)
 let () =
-  reg "strdec" (function mode :: h :: _ ->
+  reg_memo 2 "strdec" (function mode :: h :: _ ->
       (* JSON whitespace around the literal is permitted by every entry point *)
       let rec trim = function c :: r when Ref.is_ws c -> trim r | l -> l in
       let lit = Stdlib.List.rev (trim (Stdlib.List.rev (trim (bytes_of_hex h)))) in
